@@ -557,6 +557,49 @@ impl PageCache {
     }
 }
 
+/// Verification hook (add-only, compiled only with `--cfg kahflane_turdb_verif`): a consistent
+/// snapshot of one shard's private state, taken under the shard's read lock.
+#[cfg(kahflane_turdb_verif)]
+#[allow(clippy::type_complexity)]
+impl PageCache {
+    /// (hand, capacity, entries in vector order as (file_id, page_no, visited, dirty, pin_count,
+    /// first 8 data bytes LE), index sorted by key as (file_id, page_no, slot))
+    pub fn verif_dump_shard(
+        &self,
+        shard: usize,
+    ) -> (
+        usize,
+        usize,
+        Vec<(u32, u32, bool, bool, u32, u64)>,
+        Vec<(u32, u32, usize)>,
+    ) {
+        let guard = self.shards[shard].read();
+        let entries = guard
+            .entries
+            .iter()
+            .map(|e| {
+                let mut b = [0u8; 8];
+                b.copy_from_slice(&e.data[..8]);
+                (
+                    e.key.file_id,
+                    e.key.page_no,
+                    e.visited.load(Ordering::Acquire),
+                    e.dirty.load(Ordering::Acquire),
+                    e.pin_count.load(Ordering::Acquire),
+                    u64::from_le_bytes(b),
+                )
+            })
+            .collect();
+        let mut index: Vec<(u32, u32, usize)> = guard
+            .index
+            .iter()
+            .map(|(k, v)| (k.file_id, k.page_no, *v))
+            .collect();
+        index.sort_unstable();
+        (guard.hand, guard.capacity, entries, index)
+    }
+}
+
 pub struct PageRef<'a> {
     cache: &'a PageCache,
     key: PageKey,
